@@ -231,6 +231,17 @@ static int t_mpz_aors (const char *f, int budget)
       mpz_t w, u, v; R ru, rv, rw;
       mk_mpz (w, 5); mk_mpz (u, 5); mk_mpz (v, 5);
       if (it % 4 == 0) { mpz_set (v, u); if (it % 8 == 0) v->_mp_size = -v->_mp_size; }            /* equal magnitudes */
+      if (it % 4 == 1)
+        { /* massive cancellation: u = +-B^k (+small), v = -+(B^k - 1 ... ) : the difference loses several limbs */
+          int k = 1 + rnd64 () % 4;
+          mpz_realloc2 (u, 64 * (k + 1)); mpz_realloc2 (v, 64 * (k + 1));
+          for (int i = 0; i < k; i++) { u->_mp_d[i] = 0; v->_mp_d[i] = ~(L) 0; }
+          u->_mp_d[0] = rnd64 () % 3; v->_mp_d[0] = ~(L) 0 - rnd64 () % 3;
+          u->_mp_d[k] = 1; u->_mp_size = k + 1; v->_mp_size = k;
+          if (rnd64 () & 1) { u->_mp_size = -u->_mp_size; } else v->_mp_size = -v->_mp_size;
+          if (!strcmp (f, "mpz_sub")) v->_mp_size = -v->_mp_size;
+          if (rnd64 () & 1) mpz_swap (u, v);
+        }
       int al = rnd64 () % 5;
       mpz_ptr pw = w, pu = u, pv = v;
       if (al == 1) pu = w; else if (al == 2) pv = w; else if (al == 3) pv = pu; else if (al == 4) { pu = w; pv = w; }
